@@ -238,8 +238,10 @@ pub fn rejections(g: &mut G) -> Vec<(TxValidationError, String)> {
     };
     let mut out: Vec<(TxValidationError, String)> = Vec::new();
     out.push((TxValidationError::ShelleyTxValidationError { error: ApplyTxError(vec![]), era: era(g) }, "shelley/no-failures".into()));
-    let a = g.0.below(fs.len() as u64) as usize;
-    let b = g.0.below(fs.len() as u64) as usize;
+    // list of two: drawn from the UTXOW group (the leading entries); every other failure is sent on its own below
+    let n_utxow = fs.iter().take_while(|(_, n)| n.starts_with("Utxow.")).count() as u64;
+    let a = g.0.below(n_utxow) as usize;
+    let b = g.0.below(n_utxow) as usize;
     out.push((
         TxValidationError::ShelleyTxValidationError { error: ApplyTxError(vec![fs[a].0.clone(), fs[b].0.clone()]), era: era(g) },
         "shelley/two-failures".into(),
